@@ -163,7 +163,7 @@ func (r *Run) Count(name string, n int) {
 	r.acc.Counts[name] += int64(n)
 }
 
-const maxDistinct = 60000
+const maxDistinct = 20000
 
 // Acc accumulates evidence over the runs of one worker.
 type Acc struct {
